@@ -177,6 +177,9 @@ func init() {
 			x.Quiesce(6 * time.Second)
 			checkNoLeak(x, "hashicorp/go-plugin.")
 		},
+		Conform: func() []explore.Params {
+			return []explore.Params{{"pat": "hA0"}, {"pat": "pD0"}, {"pat": "hA0,pD0"}}
+		},
 		Instances: routeInstances,
 	})
 }
